@@ -455,6 +455,9 @@ class TreeMapView(Mapping[TreeMapKey, LeafValueT]):
     if isinstance(tree, NullMap):
       if self.strict:
         raise ValueError('Input tree cannot be empty when "strict" is True.')
+      if _is_key(key_path[0], _SKIP):
+        # SKIP discards the value, also when nothing has been set yet.
+        return tree
       return _default_tree(key_path, value)
     elif not hasattr(tree, '__setitem__'):
       # Returns a copy of a tuple from internals.
